@@ -234,30 +234,23 @@ def rule_nl(ctx, prop):
                 rep.violation(f"{fe.key} eof-newline-shape",
                               "format_eof does not (pop trailing whitespace, then append exactly one configured newline)",
                               fe.loc(), cfg)
-        # (9) single-line comments are trimmed: format_token's comment arms call format_single_line_comment_string
+        # (9) single-line comments and the shebang are trimmed at the end: the text of the rebuilt token is derived from the
+        # input text through a `trim_end` (inline or inside a local helper)
         ft = prog.fn("stylua_lib", "formatters::general::format_token")
         if rep.anchor(ft is not None, "format_token", cfg):
-            for v in ("SingleLineComment", "Shebang"):
-                res = Enumerator(ft, max_paths=20000, prune=None).run() if False else None
-            sw = [switch_info(ft, bi) for bi in range(len(ft.blocks))]
-            sw = [s for s in sw if s and s["enum"].endswith("TokenType") and "SingleLineComment" in s["targets"]]
-            if rep.anchor(len(sw) >= 1, "format_token: match on TokenType", cfg):
-                si = sw[0]
-                for v in ("SingleLineComment", "Shebang"):
-                    tb = si["targets"].get(v)
-                    ok = tb is not None and any(
-                        callee(t) == "formatters::general::format_single_line_comment_string" and ft.dominates(tb, b)
-                        for b, t in ft.calls())
+            import r_keep
+            seen9 = set()
+            for b, si_, s_ in ft.stmts():
+                if s_["k"] == "assign" and s_["rv"]["k"] == "agg" and s_["rv"].get("variant") in ("SingleLineComment", "Shebang") \
+                        and s_["rv"].get("adt", "").endswith("TokenType"):
+                    v = s_["rv"]["variant"]
+                    seen9.add(v)
+                    r9 = r_keep._text_ops(prog, ft, s_["rv"]["ops"][0])
+                    ok = r9 is not None and "trim_end" in r9[0]
                     rep.inst(f"{ft.key} {v} trimmed", None, cfg, ok=ok)
                     if not ok:
                         rep.violation(f"{ft.key} {v}-not-trimmed",
                                       f"format_token does not trim the {v} text: trailing whitespace / a stray carriage "
-                                      f"return of a CRLF file reaches the output", ft.loc(), cfg)
-            tr = prog.fn("stylua_lib", "formatters::general::format_single_line_comment_string")
-            if rep.anchor(tr is not None, "format_single_line_comment_string", cfg):
-                ok = any(callee(t).endswith("str::<impl str>::trim_end") for _, t in tr.calls())
-                rep.inst(f"{tr.key} = trim_end", None, cfg, ok=ok)
-                if not ok:
-                    rep.violation(f"{tr.key} does-not-trim", "format_single_line_comment_string no longer trims the end",
-                                  tr.loc(), cfg)
+                                      f"return of a CRLF file reaches the output", ft.loc(s_["sp"]), cfg)
+            rep.anchor(seen9 == {"SingleLineComment", "Shebang"}, f"format_token rebuilds SingleLineComment and Shebang ({sorted(seen9)})", cfg)
     return rep
